@@ -259,9 +259,16 @@ def run_c16(ctx):
                 for r in exp.get("runs", []):
                     for name, body in (r.get("files") or {}).items():
                         want[os.path.normpath(os.path.join(r["lang"], name))] = body.encode("utf-8")
-                for implicit in (False, True):
+                for implicit, stale in ((False, False), (True, False), (False, True)):
                     o = os.path.join(d, "out")
                     rm(o)
+                    if stale:
+                        # the output paths already exist and hold LONGER files (a previous compile of a bigger DSL)
+                        for rel, body in want.items():
+                            pth = os.path.join(o, rel)
+                            os.makedirs(os.path.dirname(pth), exist_ok=True)
+                            with open(pth, "wb") as fh:
+                                fh.write(body + b"\n// stale tail of a previous, longer output\n" * 20)
                     args = ([] if implicit else ["compile"]) + ["-f", f]
                     for lang in sub:
                         args += [FLAG[lang], os.path.join(o, lang)]
@@ -272,8 +279,8 @@ def run_c16(ctx):
                     stray = set(os.listdir(d)) - before - {"out"}
                     if rc != 0 or got != want or stray:
                         bad = sorted(k for k in set(got) | set(want) if got.get(k) != want.get(k))
-                        ctx.finding("compile/%s" % ("implicit" if implicit else "explicit"),
-                                    "compile%s writes a different file set than the generators (exit %d)" % (" without the sub-command word" if implicit else "", rc),
+                        ctx.finding("compile/%s" % ("over-existing-files" if stale else "implicit" if implicit else "explicit"),
+                                    "compile%s leaves files that differ from the generators' (exit %d)" % (" over existing, longer files" if stale else " without the sub-command word" if implicit else "", rc),
                                     {"dsl": t, "args": args, "differing": bad[:6], "stray": sorted(stray)[:5], "stdout": out[-400:]})
                     else:
                         ctx.count("compile_ok")
